@@ -84,7 +84,10 @@ OPS = [
     ["mon.write(s[-1])", "mon.write(s[0])"],
     ["mon.write(s[len(s) - 1])", "mon.write(s[-len(s)])", "ch = s[-1]", "mon.write(ch)"],
 ]
-DEFS = ["def mk(n):", "    return [n, n + 1]", "def labels(n):", '    return ["a" + str(n), "b", "c"]', "def drop(v):", "    L.remove(v)", "def grow(v):", "    L.append(v)"]
+DEFS = ["def mk(n):", "    return [n, n + 1]", "def labels(n):", '    return ["a" + str(n), "b", "c"]']
+# helpers that mutate the sketch list: only defined in the programs that call them (a helper that binds or mutates a name
+# makes it a run-time value everywhere, which would keep the transpile-time length tracking out of every other program)
+DEFS_MUTATING = ["def drop(v):", "    L.remove(v)", "def grow(v):", "    L.append(v)"]
 CORE = [0, 2, 3, 5, 9, 10, 11, 12, 13]
 CORE3 = [0, 1, 2, 3, 5, 9, 10, 11, 12, 13, 18, 20, 21, 23, 25, 28, 29, 31, 33, 34, 37, 38, 39]  # thorough: all k = 3 histories over these
 OBS = ["mon.write(x)", "mon.write(len(L))", "mon.write(L[0])", "mon.write(L[-1])"]
@@ -94,6 +97,7 @@ def build(init_i: int, seq: Sequence[int], placement: str) -> dict:
     init = INITS[init_i]
     ops = [ln for i in seq for ln in OPS[i]]
     head = ['a = analog_read("A0")', "x = a", 's = "s"', 'N = ["ab", "cd"]']
+    DEFS = globals()["DEFS"] + (DEFS_MUTATING if any("drop(" in ln or "grow(" in ln for ln in ops) else [])
     if placement == "setup":
         src = common.script(head + init + ops + OBS, None, prologue=PRO, defs=DEFS)
         passes = 0
